@@ -42,7 +42,7 @@ func init() {
 	add(Spec{
 		PropSpec: vlib.PropSpec{
 			ID: "C08", Level: "exploration",
-			Rule:        "fold phase: FoldChecksum vs a 64-bit end-around reference for ALL 2^32 accumulator values (thorough, 16 shards) or a stratified 2^22+917 504-value subset (quick: high or low half in {0,1,2,0x7fff,0x8000,0xfffe,0xffff} x all 65 536, plus PRNG values). sum phase: FoldChecksum(ComputeChecksum(d,init)) vs RFC 1071 reference for all lengths 0..64 x 5 byte patterns x 6 initial sums, PRNG strings <= 4 KiB, 65 535..65 537, and 128 KiB..300 KB strings of 0xff/large words (32-bit carry-out region). proto phase: for IPv4 header (IHL 5..15), TCP/v4, TCP/v6, UDP/v4, UDP/v6, ICMPv4, ICMPv6, GRE(+key/seq) packets built with SerializeLayers(FixLengths,ComputeChecksums): stored checksum == independent reference over the covered bytes + independently built pseudo-header; a 16-bit compensation word (payload word / IPv4 Id) steers each family through the checksum outcomes (all 65 536 in thorough, stride 16 + solved special outcomes 0x0000/0xffff/0x0001/0xfffe/0x8000/0x7fff/0x00ff/0xff00 in quick), odd and even payload lengths; every built packet is decoded and verified (layer VerifyChecksum + Packet.VerifyChecksums); every single-bit flip of every covered bit (incl. stored checksum and pseudo-header addresses) that leaves the covered byte range unchanged must be reported invalid with Correct == reference. Non-trivial = every packet (>= 1 covered word) and every >= 2-byte string; distinct by content hash.",
+			Rule:        "fold phase: FoldChecksum vs a 64-bit end-around reference for ALL 2^32 accumulator values (thorough, 16 shards) or a stratified 2^22+917 504-value subset (quick: high or low half in {0,1,2,0x7fff,0x8000,0xfffe,0xffff} x all 65 536, plus PRNG values). sum phase: FoldChecksum(ComputeChecksum(d,init)) vs RFC 1071 reference for all lengths 0..64 x 5 byte patterns x 6 initial sums, PRNG strings <= 4 KiB, 65 535..65 537, and 128 KiB..300 KB strings of 0xff/large words (32-bit carry-out region). proto phase: for IPv4 header (IHL 5..15), TCP/v4, TCP/v6, UDP/v4, UDP/v6, ICMPv4, ICMPv6, GRE (+key/seq, + source route entries of odd and even length - an odd one makes the header odd-sized, so the payload starts inside a checksum word) packets built with SerializeLayers(FixLengths,ComputeChecksums): stored checksum == independent reference over the covered bytes + independently built pseudo-header; a 16-bit compensation word (payload word / IPv4 Id) steers each family through the checksum outcomes (all 65 536 words for one family per protocol and parity in quick, six families in thorough; the special outcomes 0x0000/0xffff/0x0001/0xfffe/0x8000/0x7fff/0x00ff/0xff00 are additionally solved for), odd and even payload lengths; every built packet is decoded and verified (layer VerifyChecksum + Packet.VerifyChecksums); every single-bit flip of every covered bit (incl. stored checksum and pseudo-header addresses) that leaves the covered byte range unchanged must be reported invalid with Correct == reference. Non-trivial = every packet (>= 1 covered word) and every >= 2-byte string; distinct by content hash.",
 			Assumptions: []string{"the harness's RFC 1071 reference (64-bit accumulation, end-around fold) and pseudo-header builders are correct", "bit flips that change which bytes a layer covers (length/IHL/data-offset fields) are skipped, because an accidental 2^-16 match is then legitimate"},
 			Phases: []vlib.Phase{
 				{Name: "fold", Bin: "vchild", Quick: 16, Thorough: 16},
@@ -166,7 +166,7 @@ func init() {
 				{Name: "channel", Bin: "vchild", Race: true, Quick: 16, Thorough: 16, Procs: 2, Parallel: 8},
 				{Name: "cancel", Bin: "vchild", Race: true, Quick: 16, Thorough: 16, Procs: 2, Parallel: 8},
 			},
-			Require: []string{"pull_packets", "pull_errors_surfaced", "channel_packets", "channels_closed_after_terminal_error", "zero_copy_nocopy_refusals_checked", "cancellations", "cancellations_during_a_read"},
+			Require: []string{"pull_packets", "pull_errors_surfaced", "channel_packets", "channels_closed_after_terminal_error", "zero_copy_nocopy_refusals_checked", "cancellations_with_stopped_consumer", "cancellations", "cancellations_during_a_read"},
 		},
 		LevelText: "Runtime monitor: the real PacketSource runs against scripted data sources; an event log of source reads and consumer receipts is checked for exactly-once in-order delivery, metadata, channel closing and bounded reads after cancellation; race detector on.",
 		LevelNote: trusted,
